@@ -83,6 +83,30 @@ def long_run(rng, total, prefill=None, throttle_at=()):
     return s
 
 
+def stalled_run(total, prefill=None):
+    """a subscriber that stops reading for the whole of a long burst (it stays connected) and then resumes: however far the log
+    consumer gets ahead of the writer meanwhile, truncation must not remove what the writer has not delivered yet"""
+    ops = [{"op": "connect", "c": 1, "n": 1, "client": "s1", "ka": 6000},
+           {"op": "sub", "c": 1, "id": 1, "fs": [{"f": ["t", "#"], "q": 1}]},
+           {"op": "connect", "c": 2, "n": 1, "client": "s2", "ka": 6000},
+           {"op": "sub", "c": 2, "id": 1, "fs": [{"f": ["t", "+"], "q": 0}]},
+           {"op": "connect", "c": 3, "n": 1, "client": "p1", "ka": 6000},
+           {"op": "burst", "c": 3, "t": ["t", "a"], "p": "warm", "q": 1, "k": 5, "id": 0},
+           {"op": "gate", "c": 1, "on": True}]
+    sent, b = 5, 0
+    while sent < total:
+        k = min(300, total - sent)
+        b += 1
+        ops.append({"op": "burst", "c": 3, "t": ["t", "a"], "p": "st%d" % b, "q": 1, "k": k, "id": sent, "nowait": True})
+        sent += k
+        ops.append({"op": "wait", "ms": 150})
+    ops += [{"op": "wait", "ms": 400}, {"op": "gate", "c": 1, "on": False}, {"op": "quiesce"}]
+    s = {"nodes": [1], "ops": ops}
+    if prefill:
+        s["prefill"] = [dict(n=1, **prefill)]
+    return s
+
+
 def check(run):
     thorough = run.tier == "thorough"
     rng = random.Random(run.seed)
@@ -100,7 +124,10 @@ def check(run):
     if not thorough:
         scns.append(long_run(rng, 640))
         scns.append(long_run(rng, 260, prefill={"count": 1890, "consumed": 1885}, throttle_at=[2000]))
+        scns.append(stalled_run(1250, prefill={"count": 1890, "consumed": 1885}))
     else:
+        scns.append(stalled_run(2150))
+        scns.append(stalled_run(1250, prefill={"count": 1890, "consumed": 1885}))
         for _ in range(2):
             scns.append(long_run(rng, 3250, throttle_at=[2000, 3000]))
         scns.append(long_run(rng, 2200, prefill={"count": 900, "consumed": 880}, throttle_at=[2000, 3000]))
@@ -119,7 +146,8 @@ def check(run):
         "distinct_nontrivial": len(scns),
         "rule": "scenarios: every TLC-generated script of %d steps over 2 clients that both publish (QoS 0/1/2, ids {1,2}, PUBREL delayed) and subscribe "
                 "(QoS 1 / QoS 2) on a fresh node; plus seeded long runs of bursts (payloads 0 B - 70 KB, QoS 0/1/2, three topics, two subscribers) "
-                "crossing segment rolls and truncation points with a gated subscriber, on empty and pre-filled logs; evaluations = recorded events"
+                "crossing segment rolls and truncation points with a gated subscriber, on empty and pre-filled logs; a subscriber that stops reading for "
+                "a whole burst of 1250 (thorough also 2150) messages that carries the log past a truncation point, then resumes; evaluations = recorded events"
                 % (4 if thorough else 3),
         "trace_spec_states": tstates, "rejections": len(rejected),
         "negative_control": "MC with Margin=0 violates TruncSafe as required",
